@@ -11,7 +11,9 @@ real VerifyProof outcome against the model's verdict and against the soundness /
 oracles; honest proofs (incl. of the database-loaded trie2, which the RPC proves on) are also
 checked by the independent refimpl.Verify.  RPC: starknet_getStorageProof responses (wire format,
 v8/v9/v10, both state backends) verified by refimpl against the block's global state root.  Range proofs: claims generated from the contract
-(true / omit-left / omit-mid / alter-value / add-absent / empty / whole-trie) on both VerifyRangeProof.
+(true / omit-left / omit-mid / alter-value / add-absent / empty / whole-trie) on both VerifyRangeProof,
+with the left boundary `first` a present key, an absent model key, or an absent key that leaves the trie INSIDE an
+edge (root / internal / leaf edge, on its left or right side: a padding bit of the embedding flipped).
 """
 import json
 import vlib
@@ -84,7 +86,8 @@ def run(ctx):
         "re-hashed path, other key, retype; altered nodes rebuilt and stored under old key / new hash); binding: TLC-simulated behaviours "
         "(key/value sets over 16 model keys, ~35 membership queries and range claims each) replayed at height 251; "
         "non-trivial = every query runs the real Prove and VerifyProof / VerifyRangeProof on a trie with >= 1 binary node "
-        "or the empty trie, absent keys at every divergence depth included; RPC: starknet_getStorageProof through the real "
+        "or the empty trie, absent keys at every divergence depth included; range claims (incl. the empty claim) with `first` "
+        "diverging inside the root edge, internal edges and leaf edges, left and right of the edge path; RPC: starknet_getStorageProof through the real "
         "jsonrpc.Server (v8/v9/v10 method tables, both state backends) on chains built from StateMBT.tla behaviours, every "
         "class / contract / storage slot (present and absent) verified on the wire format by refimpl.Verify against the "
         "header's state root")
